@@ -1,6 +1,7 @@
 import AmrK.Generated.Constants
 namespace Generated
-/-- every reshape / flatten of box data is in Fortran order (x fastest), as the models assume; the one
-    C-order reshape is `expand_array`, whose index arithmetic is `Cover.repeat_reshape_index` -/
-theorem fortran_order_everywhere : nonFortranReshapes = [("amr_kitchen/mandoline/utils.py", "expand_array", "reshape")] := by decide
+/-- no reshape / flatten in the package asks explicitly for an order other than Fortran (x fastest, as
+    the models assume); `expand_array` reshapes without the keyword and its C-order index arithmetic
+    is `Cover.repeat_reshape_index` -/
+theorem fortran_order_everywhere : nonFortranReshapes = [] := by decide
 end Generated
